@@ -3,7 +3,6 @@ package main
 // C14 — tags; C20 — JSON output.
 
 import (
-	"os"
 	"fmt"
 	"go/token"
 	"go/types"
@@ -217,11 +216,29 @@ func ruleP14Model(p *Prog, r *Report) {
 	cont := p.method("klog", "TagSet", "Contains")
 	if r.anchorFn("P14-barename", cont, "klog.TagSet.Contains") {
 		for _, ret := range returnsOf(cont) {
-			lk, ok := strip(retResult(ret, 0)).(*ssa.Lookup)
-			good := ok && strip(lk.Index) == ssa.Value(cont.Params[1])
-			if good {
+			isOwnLookup := func(v ssa.Value) bool {
+				v = strip(v)
+				if ex, isEx := v.(*ssa.Extract); isEx {
+					v = ex.Tuple // the value or the presence flag of a comma-ok lookup: Put stores nothing but true
+				}
+				lk, ok := v.(*ssa.Lookup)
+				if !ok || strip(lk.Index) != ssa.Value(cont.Params[1]) {
+					return false
+				}
 				_, fld := fieldLoad(lk.X)
-				good = fld == "lookup"
+				return fld == "lookup"
+			}
+			good := isOwnLookup(retResult(ret, 0))
+			if !good {
+				// `ok && present`: a conjunction of components of that one lookup
+				if alts, okA := truthAlts(retResult(ret, 0), 0); okA && len(alts) == 1 && len(alts[0]) > 0 {
+					good = true
+					for _, g := range alts[0] {
+						if !g.Pol || !isOwnLookup(g.Cond) {
+							good = false
+						}
+					}
+				}
 			}
 			r.check(good, "P14-barename", "Contains", p.instrPos(ret), "Contains(tag) is a lookup of that very tag", "Contains does not look up the tag it is given")
 		}
@@ -604,8 +621,12 @@ func ruleP20Xor(p *Prog, r *Report) {
 			if d > 4 {
 				return
 			}
+			if cv, isConv := strip(v).(*ssa.Convert); isConv {
+				walk(cv.X, d+1) // string(bytes…)
+				return
+			}
 			if c, _ := callOf(v); c != nil {
-				if staticCallee(c) != nil && staticCallee(c).String() == "(*bytes.Buffer).String" && buf != nil && sameValue(c.Common().Args[0], buf) {
+				if staticCallee(c) != nil && (staticCallee(c).String() == "(*bytes.Buffer).String" || staticCallee(c).String() == "(*bytes.Buffer).Bytes") && buf != nil && sameValue(c.Common().Args[0], buf) {
 					found = true
 				}
 				for _, a := range c.Common().Args {
@@ -675,10 +696,6 @@ func ruleP20Fields(p *Prog, r *Report) {
 			return "elem"
 		}
 		if prm, ok := v.(*ssa.Parameter); ok {
-			if os.Getenv("KLOGSA_DEBUG") != "" {
-				g := prm.Parent()
-				fmt.Fprintf(os.Stderr, "CHAIN param %s of %s helper=%v sites=%d pinned=%v enabled=%v\n", prm.Name(), fnName(g), isHelper(g), len(ht.sites[originFn(g)]), ht.pinned[originFn(g)], ht.enabled)
-			}
 			// (named by its type: the parameter of the Range arm, of the OpenRange arm …)
 			if tn := typeNameOf(prm.Type()); tn != "" {
 				return "param:" + tn
@@ -897,7 +914,9 @@ func ruleP20Run(p *Prog, r *Report) {
 							okSrc = true
 							// printed on the ok edge
 							okEdge := false
-							for _, g := range guardsOf(at) {
+							// (the guards of the print itself: in a helper they are the helper's own
+							// plus those of its call)
+							for _, g := range guardsOf(pc.Block()) {
 								if e2, ok := g.Cond.(*ssa.Extract); ok && e2.Tuple == ssa.Value(ta) && e2.Index == 1 && g.Pol {
 									okEdge = true
 								}
